@@ -127,6 +127,42 @@ def fitPlanePCA (pos : List (R × R)) (z : List R) (nrm : R × R × R) : List R 
   let d := -(a * cx + b * cy + c * cz)
   pos.map (fun p => ((-a) * p.1 + (-b) * p.2 - d) / c)
 
+/-! ### the families fitted by `fit_origin` with `curve_fit` (ptycho_utils.py) -/
+
+inductive FitKind where
+  | plane
+  | parabola
+  | bezierTwo
+  deriving Repr, DecidableEq
+
+/-- `_plane(xy, mx, my, b)`, `_parabola(xy, c0, cx1, cx2, cy1, cy2, cxy)`,
+`_bezier_two(xy, c00, c01, c02, c10, c11, c12, c20, c21, c22)`; `θ` lists the parameters in the
+order of the Python signature (missing entries read as 0), `xy = (xy[0], xy[1])`. -/
+def surfaceF (kind : FitKind) (θ : List R) (xy : R × R) : R :=
+  let p (i : Nat) : R := θ.getD i Num.zero
+  let x := xy.1
+  let y := xy.2
+  match kind with
+  | .plane => p 0 * x + p 1 * y + p 2                      -- mx * xy[0] + my * xy[1] + b
+  | .parabola =>                                           -- c0 + cx1 x + cy1 y + cx2 x**2 + cy2 y**2 + cxy x y
+      p 0 + p 1 * x + p 3 * y + p 2 * (x * x) + p 4 * (y * y) + p 5 * x * y
+  | .bezierTwo =>
+      let u := Num.one - x
+      let v := Num.one - y
+      p 0 * (u * u) * (v * v)                              -- c00 (1-x)^2 (1-y)^2
+        + p 3 * Num.two * u * x * (v * v)                  -- c10 2 (1-x) x (1-y)^2
+        + p 6 * (x * x) * (v * v)                          -- c20 x^2 (1-y)^2
+        + p 1 * Num.two * (u * u) * v * y                  -- c01 2 (1-x)^2 (1-y) y
+        + p 4 * Num.ofNat 4 * u * x * v * y                -- c11 4 (1-x) x (1-y) y
+        + p 7 * Num.two * (x * x) * v * y                  -- c21 2 x^2 (1-y) y
+        + p 2 * (u * u) * (y * y)                          -- c02 (1-x)^2 y^2
+        + p 5 * Num.two * u * x * (y * y)                  -- c12 2 (1-x) x y^2
+        + p 8 * (x * x) * (y * y)                          -- c22 x^2 y^2
+
+/-- `f(rc, *popt).reshape(shape)` on the raster `np.indices(shape)` -/
+def surfaceOnRaster (kind : FitKind) (θ : List R) (nx ny : Nat) : List R :=
+  (List.range nx).flatMap (fun x => (List.range ny).map (fun y => surfaceF kind θ ((Num.ofNat x : R), (Num.ofNat y : R))))
+
 /-- the raster positions `meshgrid(arange(nx), arange(ny), indexing="ij")` stacked and flattened -/
 def rasterPositions (nx ny : Nat) : List (R × R) :=
   (List.range nx).flatMap (fun x => (List.range ny).map (fun y => ((Num.ofNat x : R), (Num.ofNat y : R))))
